@@ -53,6 +53,47 @@ def run(ctx, F, cg):
         else:
             ctx.violation("R20d", "decode|consume-amount|%d" % k, where(r, c.line), "the consumed amount does not derive from the parser's measured frame length (origins: %s)" % (srcs or "constant"))
 
+    # ---- R20e: a "malformed" verdict is only drawn from bytes known to be present --------------------------------
+    ctx.rule("R20e", "a content test (starts_with / ends_with / slice ==) whose outcome leads to Err(Protocol) is made on a slice with explicit bounds (a closed range the length guard covers), never on an open-ended tail: with an open tail a frame whose terminator has not arrived yet is reported malformed instead of incomplete")
+    scope = [p for p in cg.reach([dec["path"]], stop=lambda q: not q.startswith(MODULE)) if p.startswith(MODULE) and p in F.fns]
+    ntests = 0
+    for p in sorted(scope):
+        r = F.fns[p]
+        if not any(c.rsplit("::", 1)[-1] in ("starts_with", "ends_with", "eq", "ne") for c in r["calls"]):
+            continue
+        b = Body(F.mir(p), r)
+        proto = {i for i, j, pl, rv, line, exp in b.stmts() if rv[0] == "agg" and rv[1].endswith("RespError::Protocol")}
+        if not proto:
+            continue
+        k = 0
+        for c in b.calls():
+            m = c.path.rsplit("::", 1)[-1]
+            if m not in ("starts_with", "ends_with", "eq", "ne") or not ("[u8]" in c.full or "slice" in c.path or "&[u8" in c.full):
+                continue
+            if c.target is None:
+                continue
+            t = b.blocks[c.target]["t"]
+            if t[0] != "switch":
+                continue
+            sides = b.succ(c.target)
+            leads = [s_ for s_ in sides if proto & b.reachable(s_, avoid={c.target})]
+            other = [s_ for s_ in sides if s_ not in leads]
+            if not leads or not other:
+                continue            # both or neither side ends in a protocol error: not a deciding test
+            ntests += 1
+            inst = "%s|content-test|%d" % (p.replace(MODULE, ""), k)
+            k += 1
+            a = c.args[0]
+            og = b.origins(a[1][0], through_calls=lambda cc: [0] if cc.path.rsplit("::", 1)[-1] in ("deref", "as_ref", "borrow", "as_slice") else None) if a[0] != "k" else []
+            producers = [o[1] for o in og if o[0] == "call"]
+            closed = [x for x in producers if x.path.rsplit("::", 1)[-1] in ("index", "get") and ("ops::Range<usize>" in x.full or "RangeInclusive<usize>" in x.full)]
+            open_ = [x for x in producers if x.path.rsplit("::", 1)[-1] in ("split_at", "split_off", "split_first", "split_last") or (x.path.rsplit("::", 1)[-1] == "index" and ("RangeFrom" in x.full or "RangeTo<" in x.full or "RangeFull" in x.full))]
+            if closed and not open_:
+                ctx.ok("R20e", inst, "tested slice has explicit bounds (%s)" % closed[0].full[closed[0].full.rfind("<impl"):][:60])
+            else:
+                ctx.violation("R20e", inst, where(r, c.line), "%s decides 'malformed' on an open-ended slice (%s): when the bytes it looks for have not arrived yet the frame is reported as a protocol error instead of incomplete" % (m, [x.path.rsplit("::", 1)[-1] for x in (open_ or producers)] or "parameter"))
+    ctx.floor("R20e", "content tests that decide a protocol error", ntests, 1)
+
     # ---- R20b connection loop ----------------------------------------------------------------
     hc = [r for p, r in F.fns.items() if p.startswith("samyama::protocol::server::handle_connection") and r["coroutine"]]
     if not hc:
